@@ -247,25 +247,7 @@ pub fn run_c10(ctx: &mut Ctx, shard: usize, nshards: usize) {
                 if k % nshards != shard {
                     continue;
                 }
-                // items + terminator fill the chunk exactly: sum(items) == total - pad - 8 - 1
-                let mut left = total - pad as usize - 9;
-                let mut items = vec![];
-                while left >= 257 + 2 || left == 257 {
-                    items.push(Item { type_: 1 + (items.len() % 7) as u8, prefix: vec![], value: "m".repeat(255) });
-                    left -= 257;
-                }
-                if left > 257 {
-                    items.push(Item { type_: 3, prefix: vec![], value: "y".repeat(100) });
-                    left -= 102;
-                }
-                if left >= 2 {
-                    items.push(Item { type_: 2, prefix: vec![], value: "z".repeat(left - 2) });
-                    left = 0;
-                }
-                if left != 0 {
-                    continue;
-                }
-                let c = Cfg::Sdes { chunks: vec![Chunk { ssrc: 0x0a0b_0c0d, items }], padding: pad };
+                let Some(c) = crate::mon::writers::sdes_of_exactly(total, pad) else { continue };
                 if let Some(b) = enc::enc(&c) {
                     if b.len() == total {
                         check_c10(ctx, &b);
@@ -824,6 +806,27 @@ pub fn check_c13(ctx: &mut Ctx, base: &[u8], pad: u8) {
         Ok(Ok(pd)) => {
             if pd.padding != Some(pad) {
                 ctx.violate("padding-accessor", name, "value", case, format!("padding() == Some({pad})"), format!("{:?}", pd.padding));
+            }
+            // the datagram entry point is a parser of this packet too: a datagram that consists of the unpadded
+            // packet is accepted and hands it out; so is the datagram that consists of the padded one
+            let via = |d: &[u8]| -> Result<Option<String>, crate::drive::Panicked> {
+                call(|| match Compound::parse(d) {
+                    Err(e) => Some(format!("Compound::parse fails with {e:?}")),
+                    Ok(mut c) => match c.next() {
+                        Some(Ok(_)) => None,
+                        other => Some(format!("the compound's first item is {}", crate::json::trunc(&format!("{other:?}"), 120))),
+                    },
+                })
+            };
+            if let (Ok(None), Ok(Some(why))) = (via(&p_data), via(&q_data)) {
+                ctx.violate(
+                    "padded-accepted",
+                    name,
+                    "as-a-datagram",
+                    case,
+                    format!("the datagram holding the packet with {pad} bytes of padding is accepted and yields it, as the unpadded one is"),
+                    why,
+                );
             }
             if pd.content != un.content {
                 // name the part that differs
